@@ -445,6 +445,19 @@ class LoopRun:
                 elif isinstance(cell, HDict) and cell.items is not None:
                     cell.sym = P.dict_to_map(ex, cell, kind)
                     cell.items = None
+        for path, kind in lp.attrs.items():
+            base, attr = path.rsplit('.', 1)
+            fo, ref = fr.lookup(base)
+            if fo is not None and isinstance(ref, Ref):
+                val = run.cell(ref).fields.get(attr)
+                if isinstance(val, Ref):
+                    c2 = run.cell(val)
+                    if isinstance(c2, HDict) and c2.items is not None and isinstance(kind, K.Map):
+                        c2.sym = P.dict_to_map(ex, c2, kind)
+                        c2.items = None
+                    elif isinstance(c2, HList) and c2.items is not None and isinstance(kind, K.Seq):
+                        c2.sym = Sym(kind, P.seq_of(ex, [P.lift(ex, x, kind.elem) for x in c2.items], kind))
+                        c2.items = None
         # 1. invariant holds on entry
         init = self.inv(ex, fr, 0, xs)
         run.oblige(f'{cid}.loop{ordinal}.inv.init', 'inv.init', _b(ex, init))
